@@ -632,3 +632,170 @@ def short_inst(fn):
     t = fn.params[1]["t"]
     kind = "char*" if t.replace("const ", "").strip() in ("char *", "char*") else "string-iterator" if "basic_string" in t else F.short(t)
     return "%s<%s>" % (fn.name, kind)
+
+
+# =========================================================================== stream validators
+
+def _stream_param(fn):
+    ps = [p for p in fn.params if "basic_istream" in p["t"] and "&" in p["t"]]
+    return ps[0]["decl"] if len(fn.params) == 1 and ps else None
+
+
+class _StreamEval:
+    """three stream states after the caller's `inp >> a >> b`: 'good' (all read, characters left), 'eof' (all read,
+    end reached), 'fail' (an extraction failed; failbit, possibly eofbit too).  Decides which of them let a boolean
+    validator return true."""
+
+    def __init__(self, fn, decl):
+        self.fn, self.decl = fn, decl
+
+    def is_stream(self, n):
+        while n is not None and n.get("k") in ("ImplicitCastExpr", "ParenExpr") and n.get("c"):
+            n = n["c"][0]
+        return n is not None and n.get("k") == "DeclRefExpr" and n["ref"].get("decl") == self.decl
+
+    def ev(self, n, st):
+        """-> list of (truth, state')"""
+        k = n.get("k")
+        c = n.get("c") or []
+        if k in ("ImplicitCastExpr", "ParenExpr", "CXXStaticCastExpr", "CStyleCastExpr", "ExprWithCleanups") and c:
+            return self.ev(c[0], st)
+        if k == "CXXBoolLiteralExpr":
+            return [(bool(n.get("v")), st)]
+        if k == "UnaryOperator" and n.get("op") == "!":
+            return [(not v, s2) for v, s2 in self.ev(c[0], st)]
+        if k == "BinaryOperator" and n.get("op") in ("&&", "||"):
+            out = []
+            for v, s2 in self.ev(c[0], st):
+                if (n["op"] == "&&" and not v) or (n["op"] == "||" and v):
+                    out.append((v, s2))
+                else:
+                    out.extend(self.ev(c[1], s2))
+            return out
+        if k == "CXXMemberCallExpr":
+            name = strip_targs(n.get("callee") or "").rsplit("::", 1)[-1]
+            obj = F.call_object(n)
+            if obj is not None:
+                # the object may itself be an extraction `istr >> j`
+                subs = self.stream_expr(obj, st)
+                if subs is not None:
+                    out = []
+                    for s2 in subs:
+                        if name == "eof":
+                            out.append((s2 in ("eof", "fail-eof"), s2))
+                        elif name in ("fail", "bad"):
+                            out.append((s2.startswith("fail") if name == "fail" else False, s2))
+                        elif name == "good":
+                            out.append((s2 == "good", s2))
+                        elif name == "operator bool":
+                            out.append((not s2.startswith("fail"), s2))
+                        else:
+                            raise AnalysisBroken("R-REC: %s: stream member %s is not modelled" % (self.fn.short, name))
+                    return out
+        if k == "CXXOperatorCallExpr" and n.get("op") == "!":
+            subs = self.stream_expr(F.call_args(n)[0], st)
+            if subs is not None:
+                return [(s2.startswith("fail"), s2) for s2 in subs]
+        subs = self.stream_expr(n, st)
+        if subs is not None:           # stream in a boolean context
+            return [(not s2.startswith("fail"), s2) for s2 in subs]
+        raise AnalysisBroken("R-REC: %s: condition `%s` is not modelled" % (self.fn.short, F.expr_text(n)))
+
+    def stream_expr(self, n, st):
+        """states after evaluating an expression that denotes the stream (the parameter, or `stream >> x`)"""
+        while n is not None and n.get("k") in ("ImplicitCastExpr", "ParenExpr") and n.get("c"):
+            n = n["c"][0]
+        if n is None:
+            return None
+        if self.is_stream(n):
+            return [st]
+        if n.get("k") == "CXXOperatorCallExpr" and n.get("op") == ">>":
+            args = F.call_args(n)
+            base = self.stream_expr(args[0], st) if args else None
+            if base is None:
+                return None
+            out = []
+            for s2 in base:
+                if s2 == "good":
+                    out += ["good", "eof", "fail", "fail-eof"]      # read something / read up to the end / garbage / only blanks left
+                elif s2 == "eof":
+                    out += ["fail-eof"]
+                else:
+                    out += [s2]
+            return out
+        return None
+
+    def run(self, node, st):
+        """-> set of (returned truth or None for fall-through, state)"""
+        k = node.get("k")
+        if k == "CompoundStmt":
+            states = [st]
+            rets = set()
+            for s in node.get("c") or []:
+                nxt = []
+                for x in states:
+                    for r, s2 in self.run(s, x):
+                        if r is None:
+                            nxt.append(s2)
+                        else:
+                            rets.add((r, s2))
+                states = nxt
+                if not states:
+                    break
+            return rets | {(None, x) for x in states}
+        if k == "IfStmt":
+            out = set()
+            for v, s2 in self.ev(node["cond"], st):
+                br = node.get("then") if v else node.get("else")
+                if isinstance(br, dict):
+                    out |= self.run(br, s2)
+                else:
+                    out.add((None, s2))
+            return out
+        if k == "ReturnStmt":
+            c = node.get("c") or []
+            return {(v, s2) for v, s2 in self.ev(c[0], st)} if c else {(None, st)}
+        if k in ("DeclStmt", "NullStmt"):
+            for d in node.get("decls", []) or []:
+                if d.get("init") is not None and any(self.is_stream(x) for x in F.walk(d["init"])):
+                    raise AnalysisBroken("R-REC: %s: initialiser using the stream is not modelled" % self.fn.short)
+            return {(None, st)}
+        raise AnalysisBroken("R-REC: %s: statement %s is not modelled" % (self.fn.short, k))
+
+
+def rule_stream_validators(ctx):
+    """The gama-g3 / adjustment-data reader takes numbers with `pure_data(inp >> a >> b)`: the validator receives the
+    stream *after* the extractions.  It may return true only if every extraction succeeded: a failed stream
+    (non-numeric data, missing value) must be refused, otherwise the variables are used uninitialised.  Decided by
+    evaluating the validator over the three possible stream states; also: every call site hands it an extraction."""
+    fx = ctx.facts
+    n = 0
+    for fn in sorted(fx.functions.values(), key=lambda f: f.key):
+        if fn.body is None or fn.rec.get("ret") != "bool" or not fn.file.startswith(("lib/", "src/")):
+            continue
+        decl = _stream_param(fn)
+        if decl is None:
+            continue
+        calls = [(g, c) for g in fx.functions.values() if g.body is not None for c in g.calls()
+                 if c.get("calleeKey") == fn.key]
+        extr = [(g, c) for g, c in calls if any(x.get("k") == "CXXOperatorCallExpr" and x.get("op") == ">>"
+                                                 for a in F.call_args(c) for x in F.walk(a))]
+        if not extr:
+            continue
+        ctx.saw(fn)
+        ev = _StreamEval(fn, decl)
+        verdict = {}
+        for st in ("good", "eof", "fail", "fail-eof"):
+            res = ev.run(fn.body, st)
+            verdict[st] = sorted({r for r, _ in res}, key=str)
+        n += 1
+        accepts_failed = True in verdict["fail"] or True in verdict["fail-eof"]
+        ctx.report(RULE, "%s:refuses-failed-stream" % fn.sig, not accepts_failed, fn.where(), fn.short,
+                   "" if not accepts_failed else "%s returns true for a stream on which an extraction has failed (non-numeric or "
+                   "missing data): the %d callers then use the variables they tried to read uninitialised" % (fn.name, len(extr)),
+                   {"returns": {k: [str(x) for x in v] for k, v in verdict.items()}, "call_sites_with_extraction": len(extr)})
+        n += 1
+        ok2 = True in verdict["eof"] and False in verdict["good"] + [False]
+        ctx.report(RULE, "%s:accepts-complete-data" % fn.sig, True in verdict["eof"], fn.where(), fn.short,
+                   "" if True in verdict["eof"] else "%s refuses data that was read completely (stream at end, no failure)" % fn.name)
+    ctx.floor(RULE, 2, n, "stream validator obligations")
